@@ -33,7 +33,10 @@ def dags(n):
     return out
 
 
-EDGE_PARAMS = list(itertools.product(FORMS, SPELLINGS, PLACES))
+# two more forms import a type alias of the module: alone (`import type T from m`: nothing is bound at run time, but the import still
+# initialises the module) or together with names; they are combined with the plain spelling only
+TYPE_FORMS = ["type-only", "type+names"]
+EDGE_PARAMS = list(itertools.product(FORMS, SPELLINGS, PLACES)) + [(f, "m", pl) for f in TYPE_FORMS for pl in PLACES]
 
 
 def name(i):
@@ -63,9 +66,14 @@ def module_source(i, edges, params, subdir, extra=None, noexp=frozenset()):
             L.append(f'print "{me}:{base} len " + {base}.lst{j}.len()')
             L.append(f'print "{me}:{base} cnt " + {base}.cnt{j}')
             L.append(f'print "{me}:{base} K " + {base}.K{j}')
+        elif form == "type-only":
+            L.append(f"import type T{j} from {path}")
+            L.append(f"tv{i}_{j}: T{j} = {j + 100}")
+            L.append(f'print "{me}:{base} typed " + tv{i}_{j}')
         else:
             var = f", cnt{j}" if form == "names+var" else ""
-            L.append(f"import bump{j}, peek{j}, lst{j}{var}, K{j} from {path}")
+            ty = f"type T{j}, " if form == "type+names" else ""
+            L.append(f"import {ty}bump{j}, peek{j}, lst{j}{var}, K{j} from {path}")
             L.append(f'print "{me}:{base} peek " + peek{j}()')
             L.append(f"bump{j}()")
             L.append(f"lst{j}.push({i})")
@@ -81,7 +89,7 @@ def module_source(i, edges, params, subdir, extra=None, noexp=frozenset()):
     if i in noexp:
         out += [f"side{i} = {i}", f'print "effect {me} " + side{i}']
     else:
-        out += [f"export cnt{i}: int = 0", f"export lst{i}: [int...] = []", f"export const K{i}: int = {i * 11}", f"hidden{i} = {i}",
+        out += [f"export type T{i} int", f"export cnt{i}: int = 0", f"export lst{i}: [int...] = []", f"export const K{i}: int = {i * 11}", f"hidden{i} = {i}",
                 f"export bump{i}: fn() -> int = fn() -> int {{", f"\tmodify cnt{i} = cnt{i} + 1", f"\treturn cnt{i}", "}",
                 f"export peek{i}: fn() -> int = fn() -> int {{", f"\treturn cnt{i} + hidden{i} - {i}", "}"]
     for j, (form, sp, place) in mine:
@@ -105,6 +113,9 @@ def expected(n, edges, params, noexp=frozenset()):
         me, base = name(i), name(j)
         if j in noexp:
             out.append(f"{me}:{base} imported")
+            return
+        if form == "type-only":
+            out.append(f"{me}:{base} typed {j + 100}")
             return
         st = loaded[j]
         copied = st["cnt"]
@@ -141,7 +152,7 @@ class C11(Check):
     id = "C11"
     level = "model_checking"
     rule = ("all import DAGs over n modules (edges from lower to higher index, every module reachable from the entry) x per edge "
-            "(import form in {import m, import a, b from m}, path spelling in {m, m.ms, ./m}, placement of the import before / between / "
+            "(import form in {import m, import a, b from m, import type T from m, import type T, a, b from m}, path spelling in {m, m.ms, ./m}, placement of the import before / between / "
             "after the importer's side-effecting statements) - all combinations for n <= 3, at most one (quick) / two (thorough) deviating "
             "edges for n = 4 and one for n = 5; variants with the imported leaf module in a sub-directory; variants in which leaf modules export "
             "nothing (side effects only); negative cases (non-exported "
@@ -185,9 +196,9 @@ class C11(Check):
                          "unknown-member"):
                 for form_sp in range(len(SPELLINGS)):
                     yield ("neg", kind, form_sp)
-        def subdirs_dev(k):
+        def subdirs_dev(k, ns=(2, 3, 4)):
             d = EDGE_PARAMS.index(DEFAULT)
-            for n in (2, 3, 4):
+            for n in ns:
                 for edges in dags(n):
                     leaves = [j for j in range(1, n) if not any(a == j for a, _ in edges)]
                     for kk in range(0, k + 1):
@@ -220,7 +231,7 @@ class C11(Check):
               ("L0b-leaf-modules-without-exports", noexports(4, 1) if tier == "quick" else noexports(5, 1))]
         if tier == "quick":
             ls += [("L1-n<=2-all-combinations", all_combos(2)), ("L2-n=3-<=2-deviating-edges", deviating(3, 2)),
-                   ("L3-subdirectory-leaves-<=1-deviating-edge", subdirs_dev(1)), ("L4-n=4-<=1-deviating-edge", deviating(4, 1))]
+                   ("L3-subdirectory-leaves-n<=3-<=1-deviating-edge", subdirs_dev(1, (2, 3))), ("L4-n=4-<=1-deviating-edge", deviating(4, 1))]
         else:
             ls += [("L1-n<=3-all-combinations", all_combos(3)), ("L2-n<=3-subdirectory-leaves-all-combinations", subdirs()),
                    ("L3-n=4-<=2-deviating-edges", deviating(4, 2)), ("L4-n=5-<=1-deviating-edge", deviating(5, 1)),
